@@ -8,6 +8,7 @@ import (
 	"sort"
 	"strings"
 	"testing"
+	"time"
 
 	"dsim/core"
 	"dsim/simos"
@@ -151,6 +152,10 @@ func (UND) Execute(t *testing.T, sc *core.Scenario) *core.Result {
 		return s
 	}
 	for step, op := range b.Ops {
+		// The simulated clock stands still while the run computes; dolt stamps a dropped database that
+		// has to make room for a namesake with the current millisecond (.backup.<ms>), and two of those
+		// in one millisecond collide - which no real server does. Let a little time pass per step.
+		time.Sleep(3 * time.Millisecond)
 		name := undNames[op.DB]
 		sig.Add(op.Kind, name)
 		s := sess()
